@@ -235,6 +235,16 @@ def judge(ctx, spec, tb, fb, tb2=None, fb2=None):
             ctx.violate("repeat_call_differs", "repeat_call_differs", observed=geoms.to_spec(again), expected=geoms.to_spec(r1), spec=sp)
     except Exception as e:
         ctx.violate_exc("raises", f"raises_on_second_call:{type(e).__name__}", e, spec=sp)
+    if ctx.evaluations % 4 == 0:
+        try:
+            gm = geoms.build(spec, how="dict")
+            O.buffer_geometry(gm, time_buffer=tb, freq_buffer=fb)
+            geoms.edit_in_place(gm, ctx.rng)
+            if not (_mech(geoms.to_spec(gm), tb, fb)):
+                O.buffer_geometry(gm, time_buffer=tb, freq_buffer=fb)   # judged by the wrapper against the current coordinates
+        except Exception as e:
+            if not _mech(geoms.to_spec(gm), tb, fb):
+                ctx.violate_exc("raises", f"raises_after_in_place_edit:{type(e).__name__}", e, spec=sp)
     if tb2 is None or spec["type"] in ("TimeStamp", "TimeInterval", "BoundingBox"):
         if tb2 is not None:
             # closed-form types: monotone by exact widening (checked by the ambient monitor)
